@@ -1,3 +1,5 @@
+from fractions import Fraction
+
 from rtamt.semantics.time_interpreter import TimeInterpreter
 
 class DenseTimeInterpreter(TimeInterpreter):
@@ -29,6 +31,10 @@ class DenseTimeInterpreter(TimeInterpreter):
         valid = dataset_vars == self.ast.free_vars
         return valid
 
+    @staticmethod
+    def exact(factor):
+        return Fraction(factor).limit_denominator(10 ** 12)
+
     def time_unit_transformer(self, node):
         b = node.begin
         e = node.end
@@ -43,7 +49,9 @@ class DenseTimeInterpreter(TimeInterpreter):
         elif len(node.end_unit) == 0:
             e_unit = node.begin_unit
 
-        b = b * (self.ast.U[b_unit] / self.ast.U[self.ast.unit])
-        e = e * (self.ast.U[e_unit] / self.ast.U[self.ast.unit])
+        # one duration, one number: the conversion is exact (the unit table holds powers of ten) and rounded once,
+        # so that [0,700ms] and [0,0.7s] are the same window
+        b = float(b * (self.exact(self.ast.U[b_unit]) / self.exact(self.ast.U[self.ast.unit])))
+        e = float(e * (self.exact(self.ast.U[e_unit]) / self.exact(self.ast.U[self.ast.unit])))
 
         return b, e
